@@ -78,6 +78,20 @@ Theorem C13_alloc_bounded : alloc_bounded alloc_limit dec_alloc
 Proof. repeat split; [apply ab_dec_alloc|apply ab_dec_balances|apply ab_dec_suballoc]. Qed.
 Print Assumptions C13_alloc_bounded.
 
+(* the same bound for every message type except AuthResponse (its signature length is a uint32 without a
+   documented limit: an observation recorded in DESIGN.md, not part of the property) *)
+Theorem C13_msg_alloc_bounded : forall rs t, t <> 3%N -> alloc_bounded alloc_limit (dec_msg_body rs t).
+Proof. exact ab_dec_msg_body. Qed.
+Print Assumptions C13_msg_alloc_bounded.
+Theorem C13_values_alloc_bounded : forall rs,
+  alloc_bounded alloc_limit (dec_state rs) /\ alloc_bounded alloc_limit (dec_tx rs)
+  /\ alloc_bounded alloc_limit (dec_params rs) /\ alloc_bounded alloc_limit dec_wamaps
+  /\ alloc_bounded alloc_limit dec_ramaps.
+Proof.
+  intro rs. repeat split; [apply ab_dec_state|apply ab_dec_tx|apply ab_dec_params|apply ab_dec_wamaps|apply ab_dec_ramaps].
+Qed.
+Print Assumptions C13_values_alloc_bounded.
+
 Example C13_nonvacuous : run_flat dec_balances (enc_u16 1025 ++ enc_u16 2 ++ []) = Err
   /\ run_flat dec_wamaps (enc_i32 (-1)) = Err.
 Proof. vm_compute. split; reflexivity. Qed.
